@@ -101,7 +101,17 @@ def mingap_of(dtype, scale):
 
 
 def build_X(case):
-    return np.array(case["X"], dtype=case["dtype"]).reshape(len(case["X"]), case["d"])
+    X = np.array(case["X"], dtype=case["dtype"]).reshape(len(case["X"]), case["d"])
+    lay = case.get("layout", "C")
+    if lay == "F":
+        return np.asfortranarray(X)
+    if lay == "T":                    # the transpose of a (features, frames) table
+        return np.ascontiguousarray(X.T).T
+    if lay == "colstride":            # every second column of a wider table
+        big = np.full((X.shape[0], 2 * X.shape[1] + 1), 3, dtype=X.dtype)
+        big[:, 1::2] = X
+        return big[:, 1::2]
+    return X
 
 
 def build_init(case, X):
@@ -112,7 +122,7 @@ def build_init(case, X):
     if ini["kind"] == "frames":
         pts = X[np.array(ini["idx"], dtype=int)]
     else:
-        pts = np.array(ini["pts"], dtype=case["dtype"]).reshape(len(ini["pts"]), case["d"])
+        pts = np.array(ini["pts"], dtype=ini.get("pts_dtype", case["dtype"])).reshape(len(ini["pts"]), case["d"])
     arg = pts.copy() if ini.get("container", "array") == "array" else [p.copy() for p in pts]
     return arg, pts
 
@@ -279,7 +289,8 @@ class View:
         start = "cold" if case["init"] is None else "warm-" + case["init"]["kind"]
         cl = ["stop=" + sc, "criteria=" + crit, "start=" + start, "tri=%s" % bool(case["tri"]),
               "metric=" + case["metric"], "dtype=" + case["dtype"], "values=" + case["values"],
-              "entry=" + (case["entry"] if not case["tri"] else "function"),
+              "entry=" + (case["entry"] if not case["tri"] else "function"), "layout=" + case.get("layout", "C"),
+              "frac_init=%s" % bool(case["init"] and case["init"].get("pts_dtype")),
               "n=" + ("1" if self.n == 1 else "2-14" if self.n <= 14 else "15-40" if self.n <= 40 else ">40"),
               "beyond_init=" + ("0" if beyond == 0 else "1-2" if beyond < 3 else "3+")]
         if case["n_clusters"] is not None and case["n_clusters"] > self.n:
@@ -385,15 +396,20 @@ def kc_case(draw, max_small=14, max_bulk=40, bulk_share=4, init_kinds=("none", "
         blo, bhi = int(sites.min()) - 1, int(sites.max()) + 1
         raw = draw(st.lists(st.tuples(*([st.integers(blo, bhi)] * d)), min_size=k0, max_size=k0, unique=True))
         P = np.array(raw, dtype=np.float64).reshape(-1, d)
-        if dtype.startswith("float"):
+        # integer data with FRACTIONAL initial centers (group means, centers from another run): only meaningful for a
+        # metric that accepts them (the user callables; the compiled kernels refuse mixed element types)
+        frac = (not dtype.startswith("float")) and metric in CALLABLE_METRICS and draw(st.booleans())
+        if dtype.startswith("float") or frac:
             off = draw(st.lists(st.sampled_from([0.0, 0.5, -0.5, 0.25, -0.25]), min_size=d, max_size=d))
             P = P + np.array(off)[None, :]
-        P = P.astype(dtype)
+        P = P.astype("float64" if frac else dtype)
         cols = R.columns(metric, X, P)
         lab, _ = R.nearest_assign(cols)
         keep = [j for j in range(len(P)) if (lab == j).any()]      # every initial center must own a frame
         P = P[keep]
         init = {"kind": "points", "pts": P.tolist(), "container": draw(st.sampled_from(["array", "list"]))}
+        if frac:
+            init["pts_dtype"] = "float64"
         init_cols = cols[:, keep]
     m0 = 0 if init is None else init_cols.shape[1]
     if init is not None and immediate == "no" and float(init_cols.min(axis=1).max()) <= 0:
@@ -475,7 +491,8 @@ def kc_case(draw, max_small=14, max_bulk=40, bulk_share=4, init_kinds=("none", "
             "n_clusters": n_clusters, "cutoff": cutoff, "tri": use_tri,
             "entry": draw(st.sampled_from(["function", "function", "class", "class_set_params", "class_setattr_refit",
                                           "class_set_params_refit"])),
-            "style": draw(st.sampled_from(["omit", "none"]))}
+            "style": draw(st.sampled_from(["omit", "none"])),
+            "layout": draw(st.sampled_from(["C", "C", "C", "F", "T", "colstride"]))}
 
 
 # ------------------------------------------------------------------ clause bodies
@@ -726,6 +743,102 @@ def exhaustive_stop(tier, shard, nshards):
 
 _GEN = dict(init_kinds=("none", "none", "frames", "frames", "points"))
 
+# ------------------------------------------------------------------ md.Trajectory data (RMSD), shortcut == plain
+
+@st.composite
+def md_case(draw):
+    return {"n": draw(st.integers(4, 40)), "n_atoms": draw(st.integers(4, 8)), "seed": draw(st.integers(0, 2 ** 31 - 1)),
+            "blobs": draw(st.integers(1, 4)), "init": draw(st.sampled_from(["none", "frames", "offdata", "offdata", "offdata_traj"])),
+            "k0": draw(st.integers(1, 3)), "stop": draw(st.sampled_from(["n", "n", "radius", "both"])),
+            "k": draw(st.integers(1, 8)), "radius_q": draw(st.sampled_from([0.2, 0.4, 0.7]))}
+
+
+def run_shortcut_md(case):
+    import mdtraj as md
+    rng = np.random.RandomState(case["seed"])            # seed drawn by Hypothesis
+    n, na = case["n"], case["n_atoms"]
+    top = md.Topology()
+    ch = top.add_chain()
+    for _ in range(na):
+        top.add_atom("CA", md.element.carbon, top.add_residue("ALA", ch))
+    shapes = rng.normal(size=(case["blobs"], na, 3))                  # a few distinct conformations ...
+    which = rng.randint(0, case["blobs"], size=n)
+    xyz = (shapes[which] + rng.normal(scale=0.15, size=(n, na, 3))).astype(np.float32)       # ... and noise around them
+    trj = md.Trajectory(xyz, top)
+    init = None
+    if case["init"] == "frames":
+        idx = rng.choice(n, size=min(case["k0"], n), replace=False)
+        init = [trj[int(i)] for i in idx]
+    elif case["init"].startswith("offdata"):
+        # reference structures that are NOT frames of the data (half-way between conformations, plus noise)
+        ref = (shapes[rng.randint(0, case["blobs"], size=case["k0"])] * 0.5 +
+               shapes[rng.randint(0, case["blobs"], size=case["k0"])] * 0.5 +
+               rng.normal(scale=0.05, size=(case["k0"], na, 3))).astype(np.float32)
+        init = md.Trajectory(ref, top) if case["init"] == "offdata_traj" else [md.Trajectory(r[None], top) for r in ref]
+    kw = {}
+    if case["stop"] in ("n", "both"):
+        kw["n_clusters"] = (0 if init is None else len(init)) + case["k"]
+    if case["stop"] in ("radius", "both"):
+        d0 = md.rmsd(trj, trj[0])
+        kw["dist_cutoff"] = float(case["radius_q"] * d0.max()) if d0.max() > 0 else 0.1
+    cap = len(trj) + 6
+
+    def go(tri):
+        if "n_clusters" not in kw:
+            kw2 = dict(kw, n_clusters=cap)          # count-bounded watchdog for the radius-only runs
+        else:
+            kw2 = dict(kw)
+        return kcenters(trj, md.rmsd, init_centers=init, use_triangle_inequality=tri, **kw2)
+    plain, short = go(False), go(True)        # (md.rmsd itself centres the coordinates in place: not compared)
+    # md.rmsd works in float32: a distance is good to ~5e-4 nm near zero (sqrt of the float32 residual), so decisions
+    # whose margin is below TIE are not claimed - the case is skipped when the plain run itself was that close to a tie
+    TIE, ATOL = 5e-3, 2e-3
+    Dp = np.array([md.rmsd(trj, c) for c in plain.centers], dtype=float)            # centers x frames
+    m0 = 0 if init is None else len(init)
+    if m0:
+        Di = np.array([md.rmsd(trj, c) for c in init], dtype=float)
+        own = Di.argmin(axis=0)
+        if len(set(own.tolist())) < m0:
+            raise Skip("an initial center owns no frame (outside the asserted domain, see DESIGN 7.7)")
+        srt = np.sort(Di, axis=0)
+        if m0 > 1 and float((srt[1] - srt[0]).min()) < TIE:
+            raise Skip("a frame is equally far from two initial centers (float32 RMSD)")
+    for k_ in range(max(m0, 1), len(plain.centers)):
+        dmin = Dp[:k_].min(axis=0)
+        top2 = np.sort(dmin)[-2:]
+        if len(top2) == 2 and top2[1] - top2[0] < TIE:
+            raise Skip("near tie in the farthest-frame choice (float32 RMSD)")
+        if abs(dmin.max() - kw.get("dist_cutoff", 0.0)) < TIE:
+            raise Skip("radius within float32 noise of the cutoff")
+    fin = Dp.min(axis=0)
+    if abs(fin.max() - kw.get("dist_cutoff", 0.0)) < TIE:
+        raise Skip("radius within float32 noise of the cutoff (e.g. every frame is a center)")
+    require(len(plain.centers) == len(short.centers), "shortcut and plain algorithm return different numbers of centers "
+            "(md.Trajectory data)", plain=len(plain.centers), shortcut=len(short.centers), init=case["init"])
+    require([int(i) for i in plain.center_indices] == [int(i) for i in short.center_indices],
+            "shortcut and plain algorithm pick different centers (md.Trajectory data)",
+            plain=[int(i) for i in plain.center_indices], shortcut=[int(i) for i in short.center_indices], init=case["init"])
+    lp, ls = np.asarray(plain.assignments, dtype=int), np.asarray(short.assignments, dtype=int)
+    for f in np.where(lp != ls)[0]:
+        require(abs(Dp[lp[f], f] - Dp[ls[f], f]) < TIE, "shortcut and plain algorithm label a frame differently although "
+                "its two centers are not equally far (md.Trajectory data)", frame=int(f), plain=int(lp[f]), shortcut=int(ls[f]),
+                d_plain=float(Dp[lp[f], f]), d_shortcut=float(Dp[ls[f], f]), init=case["init"])
+    require(np.allclose(plain.distances, short.distances, rtol=0, atol=ATOL),
+            "shortcut and plain algorithm report different distances (md.Trajectory data)", init=case["init"],
+            worst=float(np.max(np.abs(np.asarray(plain.distances) - np.asarray(short.distances)))))
+    # and each result itself: every frame at the RMSD of its labelled center, no center closer
+    for nm, r_ in (("plain", plain), ("shortcut", short)):
+        got = np.asarray(r_.distances, dtype=float)
+        lab = np.asarray(r_.assignments, dtype=int)
+        require(np.allclose(Dp[lab, np.arange(n)], got, atol=ATOL), "reported distance is not the RMSD to the labelled center "
+                "(%s, md.Trajectory data)" % nm, worst=float(np.max(np.abs(Dp[lab, np.arange(n)] - got))), init=case["init"])
+        require(bool(np.all(fin >= got - TIE)), "a frame is not labelled with its nearest center (%s, md.Trajectory data)" % nm,
+                worst=float(np.max(got - fin)), init=case["init"])
+    return Info(len(short.centers) >= 3 and case["init"].startswith("offdata"),
+                ["md_init=" + case["init"], "md_stop=" + case["stop"], "md_centers=%d" % min(len(short.centers), 6)],
+                key=[case[k_] for k_ in sorted(case)])
+
+
 CLAUSES = [
     Clause("start", kc_case(**_GEN), run_start, quick=1500, thorough=20000),
     Clause("farthest", kc_case(**_GEN), run_farthest, quick=2500, thorough=40000),
@@ -739,6 +852,8 @@ CLAUSES = [
            run_stop_warm_noop, quick=800, thorough=10000),
     Clause("shortcut", kc_case(init_kinds=("none", "frames"), tri=True), run_shortcut, quick=2500, thorough=40000),
     Clause("shortcut_offdata", kc_case(init_kinds=("points",), tri=True), run_shortcut, quick=1200, thorough=20000),
+    Clause("shortcut_md_trajectory", md_case(), run_shortcut_md, quick=200, thorough=3000,
+           doc="md.Trajectory data with RMSD, cold / frames / off-data reference structures: shortcut == plain, labels nearest"),
     Clause("farthest_large", kc_case(max_bulk=200, bulk_share=1, **_GEN), run_farthest, quick=0, thorough=4000),
     Clause("stop_large", kc_case(max_bulk=200, bulk_share=1, **_GEN), run_stop, quick=0, thorough=4000),
     Clause("shortcut_large", kc_case(max_bulk=200, bulk_share=1, init_kinds=("none", "frames"), tri=True),
